@@ -61,6 +61,7 @@ type FuncVal struct {
 type TupleVal []Value
 
 type OpaqueVal struct {
+	Nil  *Term // non-nil: the value may be a nil pointer (library handles such as *template.Template)
 	Kind string
 	Args []Value
 	X    interface{}
@@ -175,6 +176,25 @@ func iteValue(c *Term, a, b Value) Value {
 	}
 	if c.IsFalse() || a == nil {
 		return b
+	}
+	// an abstract library handle merged with a nil pointer: a nullable handle
+	if o, ok := a.(*OpaqueVal); ok {
+		if p, ok := b.(*PtrVal); ok && p.isNilTerm().IsTrue() {
+			n := o.Nil
+			if n == nil {
+				n = False
+			}
+			return &OpaqueVal{Nil: Ite(c, n, True), Kind: o.Kind, Args: o.Args, X: o.X}
+		}
+	}
+	if o, ok := b.(*OpaqueVal); ok {
+		if p, ok := a.(*PtrVal); ok && p.isNilTerm().IsTrue() {
+			n := o.Nil
+			if n == nil {
+				n = False
+			}
+			return &OpaqueVal{Nil: Ite(c, True, n), Kind: o.Kind, Args: o.Args, X: o.X}
+		}
 	}
 	// a nil function value merged with an abstract library option: the nil side is a placeholder
 	if fv, ok := b.(*FuncVal); ok && fv.Fn == nil {
@@ -294,6 +314,16 @@ func iteValue(c *Term, a, b Value) Value {
 		for i := range x.Args {
 			r.Args[i] = iteValue(c, x.Args[i], y.Args[i])
 		}
+		if x.Nil != nil || y.Nil != nil {
+			xn, yn := x.Nil, y.Nil
+			if xn == nil {
+				xn = False
+			}
+			if yn == nil {
+				yn = False
+			}
+			r.Nil = Ite(c, xn, yn)
+		}
 		return r
 	}
 	panic(fmt.Sprintf("iteValue: unhandled %T", a))
@@ -315,6 +345,15 @@ func valuesDiffer(a, b Value) *Term {
 		}
 		return Not(Eq(x, y))
 	case *PtrVal:
+		if o, ok := b.(*OpaqueVal); ok {
+			if x.isNilTerm().IsTrue() {
+				if o.Nil == nil {
+					return True
+				}
+				return Not(o.Nil)
+			}
+			return True
+		}
 		return Not(ptrEq(x, b.(*PtrVal)))
 	case *ErrVal:
 		y := b.(*ErrVal)
@@ -351,7 +390,16 @@ func valuesDiffer(a, b Value) *Term {
 		if a == b {
 			return False
 		}
-		y := b.(*OpaqueVal)
+		y, ok := b.(*OpaqueVal)
+		if !ok {
+			if p, isP := b.(*PtrVal); isP && p.isNilTerm().IsTrue() {
+				if x.Nil == nil {
+					return True
+				}
+				return Not(x.Nil)
+			}
+			return True
+		}
 		if x.Kind != y.Kind || len(x.Args) != len(y.Args) {
 			return True
 		}
